@@ -234,6 +234,20 @@ fn main() {
     }
     let rep = Report::new("C12", &args);
     let n_self = exact::self_check();
+    // The predicates are generic over the scalar type. Evaluate the f32 instantiations once before anything else, so
+    // that state shared between instantiations (caches, statics) would be initialised by the "wrong" type; every f64
+    // claim below is then made in a process that has used f32 first.
+    {
+        use delaunay::geometry::kernel::Kernel;
+        let t: Vec<Point<f32, 2>> = vec![Point::new([0.0f32, 0.0]), Point::new([1.0, 0.0]), Point::new([0.0, 1.0])];
+        let q = Point::new([0.25f32, 0.25]);
+        let _ = simplex_orientation(&t);
+        let _ = insphere(&t, q);
+        let _ = insphere_lifted(&t, q);
+        let _ = insphere_distance(&t, q);
+        let _ = FastKernel::<f32>::new().orientation(&t);
+        let _ = RobustKernel::<f32>::new().in_sphere(&t, &q);
+    }
     let cn = Counters { evals: AtomicU64::new(0), tuples: AtomicU64::new(0), nontrivial: AtomicU64::new(0), strict_claims: AtomicU64::new(0), degenerate_claims: AtomicU64::new(0), not_asserted: AtomicU64::new(0) };
     let thorough = args.tier == Tier::Thorough;
     let full: Vec<(&str, f64, f64)> = vec![
